@@ -131,7 +131,13 @@ def check(case):
         # eager operations rely on)
         for name, wrap in (('cycle', lambda d: d.cycle()), ('catch', lambda d: d.catch()),
                            ('prefetch1', lambda d: d.prefetch(1, 2)), ('map', lambda d: d.map(lambda x: x)),
-                           ('tile2', lambda d: d.tile(2)), ('cycle-map', lambda d: d.cycle().map(lambda x: x))):
+                           ('tile2', lambda d: d.tile(2)), ('cycle-map', lambda d: d.cycle().map(lambda x: x)),
+                           ('bucket', lambda d: d.batch_dynamic_time_series_bucket(
+                               batch_size=2, len_key=lambda x: 1, max_padding_rate=0.5)),
+                           ('bucket-sorted', lambda d: d.batch_dynamic_time_series_bucket(
+                               batch_size=2, len_key=lambda x: 1, max_padding_rate=0.5, sort_key=lambda x: 0)),
+                           ('batch', lambda d: d.batch(2)), ('local-shuffle', lambda d: d.shuffle(True, buffer_size=2)),
+                           ('filter', lambda d: d.filter(lambda x: True))):
             try:
                 flag = wrap(ds).ordered
             except Exception:  # a wrapper may not apply to this pipeline, or may not define the flag
@@ -315,6 +321,8 @@ def check_freeze_propagation():
         'DynamicBucketDataset': lambda: rs(9).batch_dynamic_time_series_bucket(
             batch_size=2, len_key=lambda x: x + 1, max_padding_rate=0.9),
         'PrefetchDataset': lambda: rs(10).prefetch(1, 2),
+        'PrefetchDataset-2-workers': lambda: rs(16).map(f).prefetch(2, 3),
+        'PrefetchDataset-thread-backend': lambda: rs(17).prefetch(3, 3, backend='t').map(f),
         'CatchExceptionDataset': lambda: rs(11).map(f).catch(),
         'CacheDataset-eager-free': lambda: rs(12).map(f).items(),
         'ApplyDataset': lambda: rs(13).apply(lambda d: d.map(f), lazy=True),
